@@ -64,7 +64,7 @@ PROPS = {
     "C17": {"modules": [P + "C17", P + "C17Iter", P + "C17Refine", P + "C17Gen", P + "C17LearnRefine", P + "C17LearnAny", P + "C17PruneRefine"], "streams": ["learn", "fit", "measures"], "relevant": {"swap": None, "best": None, "prune": None, "iters": None, "predict": [1]}},
     "C18": {"modules": [P + "C18", P + "C18Refine", P + "C18ParseRefine", P + "C18ConvRefine", P + "C18Load", P + "C18Chain"], "streams": ["stream"]},
     "C19": {"modules": [P + "C19"], "streams": ["persist"]},
-    "C20": {"modules": [P + "C20", P + "C20Refine"], "streams": ["measures"]},
+    "C20": {"modules": [P + "C20", P + "C20Refine", P + "C20NormRefine"], "streams": ["measures"]},
     "C12": {"modules": [P + "C12Arcs", P + "C12Pdf", P + "C12Refine", P + "C12PdfRefine", P + "C12Gen", P + "C13PropagateRefine"], "streams": ["knn"]},
     "C13": {"modules": [P + "C13", P + "C13Rel", P + "C13Refine", P + "C13Gen", P + "C13PropagateRefine"], "streams": ["cluster", "select"]},
     "C14": {"modules": [P + "C14", P + "C12Pdf", P + "C14Refine", P + "C14Gen"], "streams": ["knnpred", "persist"]},
